@@ -111,6 +111,15 @@ func (c *c14Case) Exec() {
 		}
 	}()
 	m := memstore.NewMemStore()
+	probeBuf := make([]byte, 0, 256)
+	probe := func(o *msOp) []byte {
+		// lookups re-encode their key into one buffer (a nil key stays nil); the store must not keep that slice
+		if o.KNil {
+			return nil
+		}
+		probeBuf = append(probeBuf[:0], o.key()...)
+		return probeBuf
+	}
 	for i := range c.Ops {
 		o := &c.Ops[i]
 		o.Err, o.Val, o.ValNil, o.Bool, o.N = "", nil, false, false, 0
@@ -126,13 +135,13 @@ func (c *c14Case) Exec() {
 		case "tombstone":
 			o.Err = msErrName(m.Tombstone(o.key()))
 		case "get":
-			v, err := m.Get(o.key())
+			v, err := m.Get(probe(o))
 			o.Err = msErrName(err)
 			o.Val, o.ValNil = v, v == nil
 		case "contains":
-			o.Bool = m.Contains(o.key())
+			o.Bool = m.Contains(probe(o))
 		case "istombstoned":
-			o.Bool = m.IsTombstoned(o.key())
+			o.Bool = m.IsTombstoned(probe(o))
 		case "size":
 			o.N = m.Size()
 		}
